@@ -369,10 +369,10 @@ pub fn run(g: &mut Global) {
         "RSI is excluded (fixed 0.1 seed), as the property states".into(),
         "arbitrary-factor relations for dimensionless outputs are checked only where every comparison the implementation makes (flat-window test, consecutive closes for OBV, consecutive typical prices for MFI) is exactly equal or separated by >= 1e-9 relative".into(),
     ];
-    g.random("random", g.tier.pick(60000, 3000000), &|| strategy(None), &check);
+    g.random("random", g.tier.pick(300000, 3000000), &|| strategy(None), &check);
     // identity events (tele.rs): at one or two steps the instance is replaced by its clone, by a used instance
     // (same or longer periods) that clone_from()s it, or by its serde round trip; nothing may change
-    g.random("events", g.tier.pick(20000, 400000), &|| crate::tele::wrap(strategy(None)), &|t: &crate::tele::TCase<Case>, ctx: &mut Ctx| crate::tele::check_wrapped(t, ctx, t.case.bars.len(), t.case.cfg.n(), check));
+    g.random("events", g.tier.pick(100000, 800000), &|| crate::tele::wrap(strategy(None)), &|t: &crate::tele::TCase<Case>, ctx: &mut Ctx| crate::tele::check_wrapped(t, ctx, t.case.bars.len(), t.case.cfg.n(), check));
     if g.tier == Tier::Thorough {
         // every k in -40..=40 visited
         for k in -40i32..=40 {
